@@ -56,6 +56,9 @@ func gen(r *sim.Rng, tier string) *sim.Case {
 	if r.Pct(60) {
 		nT = r.Range(2, 3)
 	}
+	if r.Pct(3) {
+		nT, maxOps = r.Range(6, 10), 2 // rare: many threads, one or two operations each
+	}
 	c.Params["init"] = r.Pick(5, 3, 2, 1)
 	total := 0
 	// swarm: op mix per case
